@@ -185,6 +185,7 @@ def install_common(eng):
     S(r"^(std::)?panicking::begin_panic|^core::panicking::|^std::rt::begin_panic|^std::rt::panic_fmt|^panic_fmt",
       lambda e, st, c, a, d: Outcome(diverge="panic!() reached: " + c))
     install_std_extras(eng)
+    install_iter_extras(eng)
 
 
 
@@ -194,8 +195,11 @@ def install_common(eng):
 # unknown callee) keeps the checks conclusive on such edits.
 
 def find_closure_fn(eng, callee, clo=None):
-    m = re.search(r"(\{closure@[^}]*\})", callee)
-    text = m.group(1) if m else (clo.ty if isinstance(clo, AggV) else None)
+    # the closure value knows its own type; the callee text may mention several closures (adapter chains)
+    text = clo.ty if isinstance(clo, AggV) and clo.ty.startswith("{closure@") else None
+    if text is None:
+        ms = re.findall(r"(\{closure@[^}]*\})", callee)
+        text = ms[-1] if ms else None
     if text is None:
         raise EngineAbort("no closure type in %r" % callee)
     for name, fn in eng.funcs.items():
@@ -329,3 +333,208 @@ def install_std_extras(eng):
     S(r"^(core::num::<impl \w+>|\w+)::abs_diff$", lambda e, st, c, a, d: Outcome(IntV(z3.If(a[0].t >= a[1].t, a[0].t - a[1].t, a[1].t - a[0].t), a[0].ty)))
     S(r"^<(u8|u16|u32|u64|usize|i32|i64) as (From|Into)<.*>>::(from|into)$|^<(u8|u16|u32|u64|usize) as TryFrom<.*>>::try_from$",
       lambda e, st, c, a, d: Outcome(a[0] if "Try" not in c else AggV("Result", 0, [a[0]], "Ok")))
+
+
+# ----------------------------------------------------------------------------- eager iterators
+# Iterators over lists whose length is concrete on the current path (directory listings, Vecs, slices) are
+# evaluated eagerly: an adapter applies its closure to every item (forking where the closure forks).
+
+def list_iter(items):
+    return OpaqueV("ListIter", None, {"items": list(items), "pos": Cell(0)})
+
+
+def iter_items(eng, st, v):
+    v = deref_ref(eng, st, v)
+    if isinstance(v, OpaqueV) and "items" in v.attrs:
+        pos = v.attrs.get("pos")
+        return v.attrs["items"][pos.v:] if isinstance(pos, Cell) else v.attrs["items"]
+    if isinstance(v, OpaqueV) and "entries" in v.attrs:
+        return v.attrs["entries"]
+    raise EngineAbort("not an eager iterator: %r" % (v,))
+
+
+def apply_each(eng, st, callee, clo, items, mkargs):
+    """[(state, [closure result per item])] -- sequential application with forking"""
+    fn = find_closure_fn(eng, callee, clo)
+    work = [(st, [])]
+    for idx, it in enumerate(items):
+        nxt = []
+        for s_, acc in work:
+            if s_.status != "running":
+                nxt.append((s_, acc))
+                continue
+            s_.ghost["_acc"] = (acc, clo, it)
+            acc0, clo_, it_ = s_.ghost["_acc"]
+            from sym import _cp
+            for s2, r in eng.call_sync(s_, fn, [RefV(Cell(clo_)) if fn.args[0][1].startswith("&") else clo_] + mkargs(_cp(it_, {}))):
+                a2 = s2.ghost.pop("_acc", (acc0, None, None))[0]
+                if s2.status != "running":
+                    nxt.append((s2, a2))
+                else:
+                    nxt.append((s2, list(a2) + [r]))
+        work = nxt
+    return work
+
+
+def install_iter_extras(eng, order_key=None):
+    """order_key(engine, state, value) -> z3 Int term or an object with lexicographic compare, for max/min of non-integers"""
+    S = lambda rx, h: eng.add_summary(rx, h, fallback=True)
+    some = lambda v: AggV("Option", 1, [v], "Some")
+    none = lambda: AggV("Option", 0, [], "None")
+
+    def finish(work, build):
+        outs = []
+        for s2, acc in work:
+            if s2.status != "running":
+                outs.append((s2, None, []))
+            else:
+                outs.extend(build(s2, acc))
+        return ("states", outs)
+
+    def s_filter_map(eng, st, callee, args, dty):
+        items = iter_items(eng, st, args[0])
+        work = apply_each(eng, st, callee, args[1], items, lambda it: [it])
+        return finish(work, lambda s2, acc: [(s2, list_iter([r.fields[0] for r in acc if r.vname == "Some"]), [])])
+    S(r"^<.* as Iterator>::filter_map::<", s_filter_map)
+
+    def s_map(eng, st, callee, args, dty):
+        items = iter_items(eng, st, args[0])
+        work = apply_each(eng, st, callee, args[1], items, lambda it: [it])
+        return finish(work, lambda s2, acc: [(s2, list_iter(acc), [])])
+    S(r"^<.* as Iterator>::map::<", s_map)
+
+    def s_filter(eng, st, callee, args, dty):
+        items = iter_items(eng, st, args[0])
+        work = apply_each(eng, st, callee, args[1], items, lambda it: [RefV(Cell(it))])
+
+        def build(s2, acc):
+            # predicates may be symbolic: fork on each undecided one
+            outs = [(s2, [], [])]
+            for it, b in zip(items, acc):
+                t = z3.simplify(b.t)
+                nxt = []
+                for s3, kept, conds in outs:
+                    if z3.is_true(t):
+                        nxt.append((s3, kept + [it], conds))
+                    elif z3.is_false(t):
+                        nxt.append((s3, kept, conds))
+                    else:
+                        s4 = s3.clone()
+                        nxt.append((s3, kept + [it], conds + [b.t]))
+                        nxt.append((s4, kept, conds + [z3.Not(b.t)]))
+                outs = nxt
+            return [(s3, list_iter(kept), conds) for s3, kept, conds in outs]
+        return finish(work, build)
+    S(r"^<.* as Iterator>::filter::<", s_filter)
+
+    def s_any(allq):
+        def h(eng, st, callee, args, dty):
+            items = iter_items(eng, st, args[0])
+            work = apply_each(eng, st, callee, args[1], items, lambda it: [it])
+            f = z3.And if allq else z3.Or
+            return finish(work, lambda s2, acc: [(s2, BoolV(f(*[b.t for b in acc]) if acc else z3.BoolVal(allq)), [])])
+        return h
+    S(r"^<.* as Iterator>::any::<", s_any(False))
+    S(r"^<.* as Iterator>::all::<", s_any(True))
+
+    def s_max(want_max):
+        def h(eng, st, callee, args, dty):
+            items = iter_items(eng, st, args[0])
+            if not items:
+                return Outcome(none())
+            if all(isinstance(x, IntV) for x in items):
+                best = items[0].t
+                for x in items[1:]:
+                    best = z3.If((x.t >= best) if want_max else (x.t < best), x.t, best)
+                st.ghost["recognised"] = list(items)
+                return Outcome(some(IntV(best, items[0].ty)))
+            order_key = getattr(eng, "order_key", None)
+            if order_key is None:
+                raise EngineAbort("max/min over non-integer items without an ordering model")
+            # select the extreme element by pairwise comparison: fork on which item wins
+            outs = []
+            for i, cand in enumerate(items):
+                conds = []
+                for j, other in enumerate(items):
+                    if i == j:
+                        continue
+                    le = order_key(eng, st, other, cand)       # other <= cand
+                    lt = z3.Not(order_key(eng, st, cand, other))   # other < cand  (strict)
+                    if want_max:
+                        conds.append(le if j < i else lt)      # Iterator::max returns the last of equal maxima
+                    else:
+                        conds.append(order_key(eng, st, cand, other) if j > i else z3.Not(order_key(eng, st, other, cand)))
+                outs.append(Outcome(some(cand), conds))
+            return outs
+        return h
+    S(r"^<.* as Iterator>::max$", s_max(True))
+    S(r"^<.* as Iterator>::min$", s_max(False))
+    S(r"^<.* as Iterator>::count$", lambda e, st, c, a, d: Outcome(IntV(len(iter_items(e, st, a[0])), "usize")))
+    S(r"^<.* as Iterator>::last$", lambda e, st, c, a, d: Outcome(some(iter_items(e, st, a[0])[-1]) if iter_items(e, st, a[0]) else none()))
+    S(r"^<.* as Iterator>::collect::<Vec<", lambda e, st, c, a, d: Outcome(OpaqueV("Vec", None, {"items": list(iter_items(e, st, a[0]))})))
+
+    def s_next(eng, st, callee, args, dty):
+        it = deref_ref(eng, st, args[0])
+        if not (isinstance(it, OpaqueV) and it.ty == "ListIter"):
+            raise EngineAbort("next() on %r" % (it,))
+        i = it.attrs["pos"].v
+        if i < len(it.attrs["items"]):
+            it.attrs["pos"].v = i + 1
+            return Outcome(some(it.attrs["items"][i]))
+        return Outcome(none())
+    S(r"^<.* as Iterator>::next$", s_next)
+    S(r"^<.* as IntoIterator>::into_iter$", lambda e, st, c, a, d: Outcome(list_iter(iter_items(e, st, a[0])) if not (isinstance(a[0], OpaqueV) and a[0].ty == "ListIter") else a[0]))
+    # atomics: sequential cells (the engine explores one thread at a time; cross-thread effects are the lemmas' business)
+    def atom(eng, st, v, callee):
+        a = deref_ref(eng, st, v)
+        if not isinstance(a, OpaqueV):
+            raise EngineAbort("atomic op on %r" % (a,))
+        if "v" not in a.attrs:
+            ty = "bool" if "Bool" in a.ty or "Bool" in callee or "<bool>" in callee else "u64"
+            a.attrs["v"] = eng.fresh(st, ty, "atomic_" + a.name)
+        return a
+
+    def s_atomic_new(eng, st, callee, args, dty):
+        return Outcome(OpaqueV(dty if dty != "?" else "Atomic", None, {"v": args[0]}))
+    S(r"^(std::sync::atomic::)?Atomic\w*(::<\w+>)?::new$", s_atomic_new)
+    S(r"^(std::sync::atomic::)?Atomic\w*(::<\w+>)?::load$", lambda e, st, c, a, d: Outcome(atom(e, st, a[0], c).attrs["v"]))
+
+    def s_atomic_store(eng, st, callee, args, dty):
+        atom(eng, st, args[0], callee).attrs["v"] = args[1]
+        return Outcome(UnitV())
+    S(r"^(std::sync::atomic::)?Atomic\w*(::<\w+>)?::store$", s_atomic_store)
+
+    def s_atomic_swap(eng, st, callee, args, dty):
+        a = atom(eng, st, args[0], callee)
+        old = a.attrs["v"]
+        a.attrs["v"] = args[1]
+        return Outcome(old)
+    S(r"^(std::sync::atomic::)?Atomic\w*(::<\w+>)?::swap$", s_atomic_swap)
+
+    def s_atomic_fetch(op):
+        def h(eng, st, callee, args, dty):
+            a = atom(eng, st, args[0], callee)
+            old = a.attrs["v"]
+            if isinstance(old, IntV):
+                a.attrs["v"] = IntV(eng.wrap(old.t + args[1].t if op == "add" else old.t - args[1].t, old.ty), old.ty)
+            elif isinstance(old, BoolV):
+                a.attrs["v"] = BoolV(z3.Or(old.t, args[1].t) if op == "or" else z3.And(old.t, args[1].t))
+            return Outcome(old)
+        return h
+    for op in ("add", "sub", "or", "and"):
+        S(r"^(std::sync::atomic::)?Atomic\w*(::<\w+>)?::fetch_%s$" % op, s_atomic_fetch(op))
+
+    # generic Vec construction and std::mem::drop
+    S(r"^Vec::<.*>::(new|with_capacity)$", lambda e, st, c, a, d: Outcome(OpaqueV("Vec", None, {"items": []})))
+
+    def s_push(eng, st, callee, args, dty):
+        deref_ref(eng, st, args[0]).attrs["items"].append(args[1])
+        return Outcome(UnitV())
+    S(r"^Vec::<.*>::push$", s_push)
+
+    def s_drop(eng, st, callee, args, dty):
+        r = eng.drop_value(st, args[0])
+        if r is not None:
+            raise EngineAbort("forking drop inside mem::drop")
+        return Outcome(UnitV())
+    S(r"^(std::mem::|core::mem::)?drop::<", s_drop)
